@@ -140,19 +140,22 @@ def drive(prop, tier, hseed, n_examples, stats, wall, strategy=None, check=None,
         if st["first_fail"] is None and time.time() - t0 > wall:
             stats.skipped_budget += 1
             return
+        key = None
+        if st["first_fail"] is not None and time.time() - st["first_fail"] > shrink_budget:
+            # budgeted shrink: candidates not seen failing before are no longer evaluated
+            key = case_digest(case)
+            if key not in st["seen"]:
+                return
         try:
             check(case, stats)
         except Violation as v:
             if bucket_of(v) in suppress:
                 stats.suppressed += 1
                 return
-            key = case_digest(case)
-            now = time.time()
+            key = key or case_digest(case)
             if st["first_fail"] is None:
-                st["first_fail"] = now
+                st["first_fail"] = time.time()
                 stats.frozen = True
-            elif now - st["first_fail"] > shrink_budget and key not in st["seen"]:
-                return  # budgeted shrink: stop failing *new* candidates
             st["seen"].add(key)
             st["last"] = (case, v)
             raise
